@@ -31,7 +31,9 @@ POOLS = {}
 
 def _pool(compressed):
     if compressed not in POOLS:
-        POOLS[compressed] = words.pool(words.BytesWord if compressed else words.CountingWord)
+        POOLS[compressed] = words.pool(
+            {0: words.CountingWord, 1: words.BytesWord, 2: words.MixedWord}[int(compressed)]
+        )
     return POOLS[compressed]
 
 
@@ -40,7 +42,7 @@ NPOOL = len(words.POOL_SPEC)
 
 def gen(rng, tier):
     while True:
-        compressed = rng.random() < 0.5
+        compressed = rng.choice([0, 0, 1, 1, 2])   # plain / byte-compressed / mixed (some instances not serialisable)
         malformed = rng.random() < 0.15
         n = rng.randint(1, 80)
         npool = rng.randint(1, NPOOL)
@@ -250,7 +252,7 @@ def key(case):
 
 
 def classify(case, res):
-    tags = ["compressed" if case["compressed"] else "plain"]
+    tags = [{0: "plain", 1: "compressed", 2: "mixed"}[int(case["compressed"])]]
     outs = res.get("out")
     if isinstance(outs, list):
         if any(r[0] == 4 for r in outs[0]):
